@@ -274,7 +274,8 @@ func runC17(x *Exec) {
 				x.Fail("C17-size", "%s: Size()=%d, entries+tombstones=%d", when, h.db.Size(), len(h.state))
 				return false
 			}
-			for ks, e := range h.state {
+			for _, ks := range sortedStateKeys(h.state) {
+				e := h.state[ks]
 				var k interface{} = ks
 				if !p.StrKey {
 					var n int
@@ -572,4 +573,13 @@ func sortedSet(m map[string]bool) []string {
 	}
 	sort.Strings(s)
 	return s
+}
+
+func sortedStateKeys(s kvState) []string {
+	var ks []string
+	for k := range s {
+		ks = append(ks, k)
+	}
+	sort.Strings(ks)
+	return ks
 }
